@@ -6,6 +6,7 @@ package hclwrite
 import (
 	"strings"
 
+	"github.com/hashicorp/hcl/v2"
 	"github.com/hashicorp/hcl/v2/hclsyntax"
 	"github.com/zclconf/go-cty/cty"
 )
@@ -160,21 +161,42 @@ func (bl *blockLabels) Current() []string {
 				// "%" characters), and an open quote followed immediately by
 				// a closing quote is a valid but unusual blank string label.
 				// Note that TokenQuotedLit may contain escape sequences.
-				var labelString strings.Builder
+				var content []byte
 				valid := true
 				for _, token := range tokens[1 : len(tokens)-1] {
 					if token.Type != hclsyntax.TokenQuotedLit {
 						valid = false
 						break
 					}
-					part, diags := hclsyntax.ParseStringLiteralToken(token.asHCLSyntax())
-					// If parsing the string literal returns error diagnostics
-					// then we can just assume the label doesn't match, because it's invalid in some way.
-					if diags.HasErrors() {
-						valid = false
-						break
+					content = append(content, token.Bytes...)
+				}
+				// Labels set through the API hold their whole content in a
+				// single token, but ParseStringLiteralToken only decodes the
+				// "$${" and "%%{" escapes correctly when the content is split
+				// the way the scanner splits it, so we rescan it first.
+				var labelString strings.Builder
+				if valid {
+					quoted := make([]byte, 0, len(content)+2)
+					quoted = append(quoted, '"')
+					quoted = append(quoted, content...)
+					quoted = append(quoted, '"')
+					scanned, _ := hclsyntax.LexExpression(quoted, "", hcl.InitialPos)
+					for _, token := range scanned {
+						switch token.Type {
+						case hclsyntax.TokenOQuote, hclsyntax.TokenCQuote, hclsyntax.TokenEOF:
+							continue
+						case hclsyntax.TokenQuotedLit:
+							part, diags := hclsyntax.ParseStringLiteralToken(token)
+							// If parsing the string literal returns error diagnostics
+							// then we can just assume the label doesn't match, because it's invalid in some way.
+							if diags.HasErrors() {
+								valid = false
+							}
+							labelString.WriteString(part)
+						default:
+							valid = false
+						}
 					}
-					labelString.WriteString(part)
 				}
 				if valid {
 					labelNames = append(labelNames, labelString.String())
